@@ -80,9 +80,10 @@ def bhiksha_stream(ctx, stats):
 
 
 def image_stream(ctx, stats, lmq):
-    """the bytes of the search structure of a `trie` / `trie -a` binary file against the extracted layout model
+    """the bytes of the search structure of a `trie` / `trie -a` / `probing` binary file against the extracted layout models
     (coq/C03/TrieLayout.v, TrieMem.v, TrieImage.v: forest of the loaded trie table -> depth-first build -> bit-packed arrays over the
-    generated routines, offset tables of C03/BhikshaModel.v); when the bytes differ, every n-gram of the model is queried on the
+    generated routines, offset tables of C03/BhikshaModel.v; coq/C03/ProbingImage.v: unigram array + linear-probing tables keyed by the
+    64-bit n-gram hash, entries in ReadNGrams/FindLower order, placement by C20/ProbingModel.v); when the bytes differ, every n-gram of the model is queried on the
     written file and compared with the model's answers to look for a behavioural difference"""
     rng = ctx.rng
     exe = vlib.ocaml_model("C01")
@@ -96,9 +97,10 @@ def image_stream(ctx, stats, lmq):
             continue
         sess = lc.Session(ctx, m, "img%d" % mi)
         base = {"arpa": m.arpa_bytes().decode("latin-1"), "vocab": m.vocab_bytes().decode("latin-1")}
-        for typ, kd, cfg in (("trie", "T", 0), ("atrie", "A", rng.choice([64, 255, 22])), ("atrie", "A", rng.choice([0, 1, 2, 3, 5, 8]))):
-            binf = os.path.join(sess.dir, "%s.%d.bin" % (typ, cfg))
-            opts = ["bhiksha=%d" % cfg] if kd == "A" else []
+        for typ, kd, cfg in (("trie", "T", 0), ("atrie", "A", rng.choice([64, 255, 22])), ("atrie", "A", rng.choice([0, 1, 2, 3, 5, 8])),
+                             ("probing", "P", rng.choice(["1.5", "1.2", "2", "3", "7.5"]))):
+            binf = os.path.join(sess.dir, "%s.%s.bin" % (typ, cfg))
+            opts = ["bhiksha=%d" % cfg] if kd == "A" else ["mult=%s" % cfg] if kd == "P" else []
             cmd = [lmq, sess.arpa, typ, sess.vocab, "tmp=" + sess.dir + "/", "write_mmap=" + binf, "include_vocab=0"] + opts
             rc, out, err = vlib.sh(cmd, input=b"IDS\n", timeout=120)
             res = out.split("\n")
@@ -109,7 +111,7 @@ def image_stream(ctx, stats, lmq):
             if len(ids) < len(m.vocab):
                 continue
             def mp(w): return ids[w]
-            ls = ["MODEL %d %d %s %s" % (m.order, 1 if m.saw_unk else 0, lc.shex(-100 * lc.UNIT), ",".join(str(b) for b in m.buckets(1.5))), "BOS %x" % mp(m.bos)]
+            ls = ["MODEL %d %d %s %s" % (m.order, 1 if m.saw_unk else 0, lc.shex(-100 * lc.UNIT), ",".join(str(b) for b in m.buckets(float(cfg) if kd == "P" else 1.5))), "BOS %x" % mp(m.bos)]
             for k in m.file_order.get(1, []):
                 g = m.grams[k]
                 ls.append("U %x %s %s %d" % (mp(k[0]), lc.shex(g["prob"]), lc.shex(g["bo"]), 1 if (g["pz"] and g["prob"] == 0) else 0))
@@ -118,15 +120,17 @@ def image_stream(ctx, stats, lmq):
                     g = m.grams[k]
                     ls.append("G %d %s %s %s" % (o, ",".join("%x" % mp(w) for w in k), lc.shex(g["prob"]), lc.shex(g["bo"] if o < m.order else 0)))
             ls.append("END")
-            ls.append("IMG %s %x" % (kd, cfg))
+            ls.append("PIMG %d" % (len(m.file_order.get(1, [])) + 1) if kd == "P" else "IMG %s %x" % (kd, cfg))
             qs = lc.ngram_queries(m)
             for b, ws in qs:
-                ls.append("S T %d %s" % (b, " ".join("%x" % mp(w) for w in ws)))
+                ls.append("S %s %d %s" % ("P" if kd == "P" else "T", b, " ".join("%x" % mp(w) for w in ws)))
             mo = vlib.run_lines(exe, ls)
             img = mo[len(ls) - len(qs) - 1]
-            if not img.startswith("walk="):
-                continue                      # the model rejects the file (missing context ...): nothing to lay out
+            if not (img.startswith("walk=") or img.startswith("img ")):
+                continue                      # the model rejects the file (missing context, table full ...): nothing to lay out
             chk, _, hx = img.partition(" ")
+            if kd == "P":
+                chk = "walk=1"
             mb = bytes.fromhex(hx)
             fb = open(binf, "rb").read()
             stats["image_files"] += 1
